@@ -345,7 +345,7 @@ impl Prop for C13 {
             "(a) every key history of length <= L (L=4 quick, 5 thorough) over a {}-symbol alphabet (vowels, signs, consonants, hasanta, chandrabindu, anusvara, ZWNJ, digit, \
              punctuation, ro-fola, zo-fola, reph) under the 16 settings of auto-vowel/auto-chandra/traditional/old-vowel-order, followed by the reph key with old-style reph on: \
              conservation on every text, placement where the syllable grammar accepts the text; the same histories with the option off (plain append), strided; \
-             (b) all words of <= 2 (quick) / 3 (thorough, strided) syllables generated from the grammar. distinct_nontrivial = distinct texts whose placement was judged.",
+             (b) all words of <= 2 (quick) / 3 (thorough, strided) syllables generated from the grammar; (c) every Bengali-block character the synthetic layout has a key for (all 36 consonants, all signs, all vowels, marks) in 2-8 positions of the final syllable under the 16 settings; (d) the option switched on and off by update_engine (fresh or reused configuration object) under a live idle context, 20 rounds x 5 texts. distinct_nontrivial = distinct texts whose placement was judged.",
             ALPHABET.len()
         )
     }
@@ -363,7 +363,7 @@ impl Prop for C13 {
         true
     }
     fn minima(&self, _tier: Tier) -> Vec<(&'static str, u64)> {
-        vec![("conservation_judged", 10_000), ("placement_expected_moved", 2_000), ("placement_expected_end", 1_000), ("empty_text", 4), ("placement_traditional_joiner_either", 200), ("option_off_append_judged", 1_000)]
+        vec![("conservation_judged", 10_000), ("placement_expected_moved", 2_000), ("placement_expected_end", 1_000), ("empty_text", 4), ("placement_traditional_joiner_either", 200), ("per_character_shapes", 5_000), ("option_switched_live", 100), ("option_off_append_judged", 1_000)]
     }
     fn run_shard(&self, env: &Env, out: &mut Out) {
         let Ok(oracle) = LayoutOracle::load(Lay::Verif) else {
@@ -424,6 +424,59 @@ impl Prop for C13 {
                         }
                     }
                 }
+            }
+        }
+        // every consonant, vowel sign and independent vowel the layout has a key for, in the positions that matter to the scan
+        if env.shard == 0 {
+            let k = |v: &str| oracle.key_for_value(v);
+            let singles: Vec<(char, (u16, u8))> = ('\u{0980}'..='\u{09FF}').filter_map(|c| k(&c.to_string()).map(|x| (c, x))).collect();
+            let (Some(ka), Some(h), Some(aa), Some(i), Some(a), Some(ch)) = (k("ক"), k("\u{09CD}"), k("া"), k("ি"), k("অ"), k("\u{0981}")) else {
+                out.note("synthetic layout lacks a basic key".into());
+                return;
+            };
+            let mut nshape = 0u64;
+            for bits in 0..16u8 {
+                let spec = spec_for(bits, true);
+                let Ok(s) = Sess::new(spec, &root) else { continue };
+                for &(c, x) in &singles {
+                    let shapes: Vec<Vec<(u16, u8)>> = if is_consonant(c) {
+                        vec![vec![x], vec![ka, x], vec![x, aa], vec![ka, h, x], vec![x, h, ka], vec![x, h, ka, i], vec![a, x, ch], vec![ka, aa, x, i, ch]]
+                    } else if is_kar(c) {
+                        vec![vec![ka, x], vec![ka, h, ka, x], vec![ka, x, ch], vec![ka, x, ka]]
+                    } else if is_vowel_letter(c) {
+                        vec![vec![x], vec![ka, x], vec![x, ka], vec![x, ch]]
+                    } else {
+                        vec![vec![ka, x], vec![x, ka]]
+                    };
+                    for w in shapes {
+                        nshape += 1;
+                        out.begin_case(|| case_json(&spec, &w, reph));
+                        judge(&s, &spec, &w, reph, out, &mut t);
+                    }
+                }
+            }
+            out.count("per_character_shapes", nshape);
+            // the option switched on and off under a live, idle context: it must take effect at once
+            let base = CfgSpec::new(Lay::Verif, 0);
+            if let Ok(mut s) = Sess::new(base, &root) {
+                let texts: Vec<Vec<(u16, u8)>> = vec![vec![ka], vec![ka, aa], vec![ka, h, ka, i], vec![a, ka, ch], vec![]];
+                let mut nflip = 0u64;
+                for round in 0..20usize {
+                    let spec = if round % 2 == 0 { base.with(O_REPH) } else { base };
+                    if s.update_with(spec, [0u8, 3, 1, 4, 2][round % 5]).is_err() {
+                        break;
+                    }
+                    for w in &texts {
+                        nflip += 1;
+                        out.begin_case(|| {
+                            let mut c = case_json(&spec, w, reph);
+                            c["history"] = json!(format!("old-style reph switched by update_engine on a live idle context, round {round}"));
+                            c
+                        });
+                        judge(&s, &spec, w, reph, out, &mut t);
+                    }
+                }
+                out.count("option_switched_live", nflip);
             }
         }
         // grammar-generated words
